@@ -483,4 +483,218 @@ func TestReplay_Lease(t *testing.T) {
 		}
 		verifkit.ReportReplay(rf, runLCase(c).Failure)
 	}
+	for _, rf := range verifkit.ReplayFiles("TestProp_C05_Transport") {
+		var c L5Case
+		if err := json.Unmarshal(rf.Case, &c); err != nil {
+			fmt.Printf("REPLAY-ERROR file=%s err=%v\n", rf.Path, err)
+			continue
+		}
+		verifkit.ReportReplay(rf, runL5Case(c).Failure)
+	}
+}
+
+// ---------------------------------------------------------------------------------------
+// C05, transport tier: a Pull dequeue returns exactly min(batch capped at max_batch, ready).
+// ---------------------------------------------------------------------------------------
+
+type L5Op struct {
+	K     string `json:"k"` // enq | deq | nack | adv
+	N     int    `json:"n,omitempty"`
+	Ms    int    `json:"ms,omitempty"`
+	Route int    `json:"route,omitempty"`
+}
+
+type L5Case struct {
+	Backend  string `json:"backend"`
+	MaxBatch int    `json:"max_batch"`
+	Ops      []L5Op `json:"ops"`
+}
+
+func genL5Case() *rapid.Generator[L5Case] {
+	return rapid.Custom(func(t *rapid.T) L5Case {
+		c := L5Case{Backend: rapid.SampledFrom([]string{"memory", "sqlite"}).Draw(t, "backend"), MaxBatch: rapid.SampledFrom([]int{1, 2, 3, 5, 100}).Draw(t, "max_batch")}
+		g := rapid.Custom(func(t *rapid.T) L5Op {
+			op := L5Op{K: rapid.SampledFrom([]string{"enq", "enq", "enq", "deq", "deq", "nack", "adv"}).Draw(t, "k"), Route: rapid.IntRange(0, 1).Draw(t, "route")}
+			switch op.K {
+			case "enq":
+				op.Ms = rapid.SampledFrom([]int{0, 0, 0, 50, 1000}).Draw(t, "future_ms")
+			case "deq":
+				op.N = rapid.SampledFrom([]int{0, 1, 2, 3, 4, 6, 100, 101, 1000}).Draw(t, "batch")
+			case "nack":
+				op.Ms = rapid.SampledFrom([]int{0, 10, 50, 1000}).Draw(t, "delay")
+			case "adv":
+				op.Ms = rapid.SampledFrom([]int{0, 10, 49, 50, 51, 999, 1000, 1001}).Draw(t, "ms")
+			}
+			return op
+		})
+		c.Ops = rapid.SliceOfN(g, 4, 40).Draw(t, "ops")
+		return c
+	})
+}
+
+func runL5Case(c L5Case) *lOutcome {
+	out := &lOutcome{Labels: map[string]bool{}}
+	clk := &lClock{}
+	var st queue.Store
+	switch c.Backend {
+	case "sqlite":
+		s, err := queue.NewSQLiteStore(fmt.Sprintf("%s/l5-%d.db", verifkit.ScratchDir(), time.Now().UnixNano()), queue.WithSQLiteNowFunc(clk.Now), queue.WithSQLiteCheckpointInterval(0))
+		if err != nil {
+			out.Failure = &verifkit.Failure{Prop: "HARNESS", Clause: "open", Detail: err.Error()}
+			return out
+		}
+		defer s.Close()
+		st = s
+	default:
+		st = queue.NewMemoryStore(queue.WithNowFunc(clk.Now))
+	}
+	srv := NewServer(st)
+	srv.now = clk.Now
+	srv.MaxBatch = c.MaxBatch
+	routes := []string{"/r0", "/r1"}
+	srv.ResolveRoute = func(ep string) (string, bool) {
+		for _, r := range routes {
+			if ep == "/pull"+r {
+				return r, true
+			}
+		}
+		return "", false
+	}
+	type held struct {
+		lease, id string
+		until     int64
+	}
+	var leases []held
+	dueAt := map[string]int64{}   // id -> instant from which it is ready (queued)
+	leasedTo := map[string]int64{} // id -> lease_until (leased)
+	routeOf := map[string]string{}
+	seq := 0
+	for i, op := range c.Ops {
+		now := clk.Now().UnixNano()
+		route := routes[op.Route]
+		switch op.K {
+		case "enq":
+			seq++
+			id := fmt.Sprintf("m%d", seq)
+			env := queue.Envelope{ID: id, Route: route, Target: "pull", Payload: []byte("p")}
+			due := now
+			if op.Ms > 0 {
+				env.NextRunAt = clk.Now().Add(time.Duration(op.Ms) * time.Millisecond)
+				due = env.NextRunAt.UnixNano()
+			}
+			if err := st.Enqueue(env); err == nil {
+				dueAt[id] = due
+				routeOf[id] = route
+			}
+		case "adv":
+			clk.ns.Add(int64(time.Duration(op.Ms) * time.Millisecond))
+		case "nack":
+			if len(leases) == 0 {
+				continue
+			}
+			h := leases[0]
+			leases = leases[1:]
+			b, _ := json.Marshal(map[string]any{"lease_id": h.lease, "delay": fmt.Sprintf("%dms", op.Ms)})
+			req := httptest.NewRequest(http.MethodPost, "/pull"+routeOf[h.id]+"/nack", bytes.NewReader(b))
+			rec := httptest.NewRecorder()
+			srv.ServeHTTP(rec, req)
+			if rec.Code/100 == 2 {
+				delete(leasedTo, h.id)
+				dueAt[h.id] = now + int64(time.Duration(op.Ms)*time.Millisecond)
+			} else if leasedTo[h.id] <= now {
+				// expired lease: released to the queue at this instant
+				if _, ok := leasedTo[h.id]; ok {
+					delete(leasedTo, h.id)
+					dueAt[h.id] = now
+				}
+			}
+		case "deq":
+			b, _ := json.Marshal(map[string]any{"batch": op.N, "lease_ttl": "100ms"})
+			req := httptest.NewRequest(http.MethodPost, "/pull"+route+"/dequeue", bytes.NewReader(b))
+			rec := httptest.NewRecorder()
+			srv.ServeHTTP(rec, req)
+			if rec.Code == 400 {
+				out.Labels["deq-400"] = true
+				continue
+			}
+			var resp struct {
+				Items []struct {
+					ID      string `json:"id"`
+					LeaseID string `json:"lease_id"`
+				} `json:"items"`
+			}
+			if rec.Code != 200 || json.Unmarshal(rec.Body.Bytes(), &resp) != nil {
+				out.Failure = &verifkit.Failure{Prop: "HARNESS", Clause: "dequeue", Detail: fmt.Sprintf("%d %s", rec.Code, rec.Body.String())}
+				return out
+			}
+			ready := 0
+			for id, due := range dueAt {
+				if routeOf[id] == route && due <= now {
+					ready++
+				}
+			}
+			for id, until := range leasedTo {
+				if routeOf[id] == route && until <= now {
+					ready++
+				}
+			}
+			want := op.N
+			if want <= 0 {
+				want = 1
+			}
+			if want > c.MaxBatch {
+				want = c.MaxBatch
+			}
+			if want > ready {
+				want = ready
+			}
+			got := len(resp.Items)
+			for _, it := range resp.Items {
+				due, q := dueAt[it.ID]
+				until, l := leasedTo[it.ID]
+				if routeOf[it.ID] != route || !((q && due <= now) || (l && until <= now)) {
+					out.Failure = &verifkit.Failure{Prop: "C05,C03", Clause: "not-ready-returned", Step: i, Detail: fmt.Sprintf("dequeue %s at +%dms returned %s which is not ready (due=%d until=%d)", route, (now-lT0.UnixNano())/1e6, it.ID, due, until)}
+					return out
+				}
+				delete(dueAt, it.ID)
+				leasedTo[it.ID] = now + int64(100*time.Millisecond)
+				leases = append(leases, held{lease: it.LeaseID, id: it.ID, until: leasedTo[it.ID]})
+			}
+			if got != want {
+				out.Failure = &verifkit.Failure{Prop: "C05", Clause: "dequeue-count", Step: i, Detail: fmt.Sprintf("dequeue %s batch=%d max_batch=%d at +%dms returned %d items, %d ready => expected %d", route, op.N, c.MaxBatch, (now-lT0.UnixNano())/1e6, got, ready, want)}
+				return out
+			}
+			// expired leases of this route not returned were released by the sweep
+			for id, until := range leasedTo {
+				if until <= now {
+					delete(leasedTo, id)
+					dueAt[id] = now
+				}
+			}
+			if op.N > c.MaxBatch && ready > c.MaxBatch {
+				out.Labels["capped-by-max-batch"] = true
+				out.NonTriv = true
+			}
+			if ready > 0 && want < ready {
+				out.Labels["batch<ready"] = true
+			}
+			if got > 0 {
+				out.Labels["returned"] = true
+			}
+		}
+	}
+	return out
+}
+
+func TestProp_C05_Transport(t *testing.T) {
+	gen := genL5Case()
+	rapid.Check(t, func(rt *rapid.T) {
+		c := gen.Draw(rt, "case")
+		out := runL5Case(c)
+		verifkit.Emit(verifkit.Record{Prop: "C05", Test: "TestProp_C05_Transport", Hash: verifkit.Hash(c), NonTrivial: out.NonTriv, Labels: out.labelList()}, c)
+		if out.Failure != nil {
+			verifkit.SaveFailing("TestProp_C05_Transport", c, out.Failure)
+			rt.Fatalf("%v", out.Failure)
+		}
+	})
 }
